@@ -93,6 +93,8 @@ def run(pid, tier, seed, replay):
                             [p for p in proof["problems"] if not p.startswith("no axiom report")] + ["build log: " + tail(log)]
         proof["log"] = tail(log, 6000)
     chk.proof = proof
+    if any(m.endswith("Src") for m in C.property_modules(pid)):
+        chk.extra["source_translation"] = C.source_translation_info()
     if tier == "thorough" and built:
         ok_lc, lc_log = leanchecker(pid)
         chk.extra["leanchecker"] = "ok" if ok_lc else "FAILED: " + tail(lc_log)
